@@ -56,6 +56,7 @@ def job_strategy(draw, spec: dict) -> dict:
         if spec.get("py", True):
             targets.append("py")
         cases: typing.List[dict] = []
+        overrides: typing.Dict[str, int] = {}
         for ti, ct in enumerate(ctypes):
             mx = max_ser_bytes(ct)
             for k in range(spec.get("n_values", 0)):
@@ -89,14 +90,24 @@ def job_strategy(draw, spec: dict) -> dict:
                     b2 = refmodel.serialize(ct, v2)[0]
                     cut = draw(st.integers(0, len(b2)))
                     prior = valuegen.words_hex(valuegen.to_words(ct, v1))
-                    for b in (b2, b2[:cut]):
-                        h = b.hex() or "-"
-                        for mode in ("F", "Z", "P", "V", "K"):
-                            cases.append({"op": "D", "ti": ti, "cls": "prior", "bytes": h, "mode": mode, "prior": prior if mode == "V" else "-", "group": len(cases) // 5 if False else f"{ti}:{h}"})
-                        # K again after an intervening decode of other bytes into the kept object
-                        cases.append({"op": "D", "ti": ti, "cls": "prior", "bytes": b1.hex() or "-", "mode": "K", "prior": "-", "group": f"{ti}:{b1.hex() or '-'}"})
-                        cases.append({"op": "D", "ti": ti, "cls": "prior", "bytes": h, "mode": "K", "prior": "-", "group": f"{ti}:{h}"})
-        return {"universe": u, "targets": targets, "cases": cases, "features": dsdlgen.features(u)}
+                    strings = [b2.hex() or "-", b2[:cut].hex() or "-", b1.hex() or "-"]
+                    for h in strings:
+                        for mode in ("F", "Z", "P", "V"):
+                            cases.append({"op": "D", "ti": ti, "cls": "prior", "bytes": h, "mode": mode, "prior": prior if mode == "V" else "-"})
+                    # a running history on one kept object: every decode must equal the fresh decode of the same bytes
+                    for h in (strings[0], strings[2], strings[1], strings[0], strings[1]):
+                        cases.append({"op": "D", "ti": ti, "cls": "prior", "bytes": h, "mode": "K", "prior": "-"})
+            if spec.get("cap_override") and any(k.startswith("c|") and k.endswith("|1") for k in targets):
+                t_ = inner(ct)
+                import pydsdl as _p
+
+                for f in t_.fields_except_padding:
+                    if isinstance(f.data_type, _p.VariableLengthArrayType) and f.data_type.capacity > 1:
+                        from .emit_c import c_type_name
+
+                        k_ = draw(st.integers(1, f.data_type.capacity - 1))
+                        overrides[f"{c_type_name(t_)}_{f.name}_ARRAY_CAPACITY_"] = k_
+        return {"universe": u, "targets": targets, "cases": cases, "features": dsdlgen.features(u), "cap_overrides": overrides}
     finally:
         L.close()
 
@@ -211,7 +222,7 @@ def single_case_job(job: dict, ci: int, keys: typing.List[str]) -> dict:
     cases = [case]
     if case.get("mode") == "K":
         cases = [c for c in job["cases"][: ci + 1] if c.get("mode") == "K" and c["ti"] == case["ti"]]
-    return {"universe": job["universe"], "targets": keys, "cases": cases}
+    return {"universe": job["universe"], "targets": keys, "cases": cases, "cap_overrides": job.get("cap_overrides", {})}
 
 
 def option_coverage(jobs: typing.List[dict]) -> dict:
